@@ -12,7 +12,7 @@ PROPERTY = "C20"
 LEVEL = "exploration"
 META = {
     "text": "A network in which every element table is non-empty and which carries std types, two controllers (one with a DFData source), two groups, two characteristics, user_pf_options and geodata is saved and loaded through every public format (to_json string / file / file object / encrypted, to_pickle file / file object, to_excel, to_sqlite) after one or two slots were overwritten with a value from a finite alphabet (numeric-looking / empty / NA-like / unicode / long strings, NaN, +-inf, -0.0, subnormal, 1e308, 0.1+0.2, 1/3, 0, -1, 2**53+1, bools, None, nullable and narrow custom dtypes, date-named custom columns, gapped / permuted / named indices, result tables present).  The loaded net is walked against the original: tables, index labels / order / dtype / name, columns, dtypes, every cell (type and value, floats within 1e-14 for text formats, exact for pickle), std types, controller / characteristic objects attribute by attribute, groups, options, scalar attributes, and the results of runpp on both.  For Excel / SQLite only element-table cells that the storage format can hold are judged.",
-    "note": "Trusted: mc/g_netcmp.py (the walker) and the representability predicate for xlsx / SQLite cells in mc/g_io.py.  Not demanded (statement grants it): sign of zero, None vs NaN as the missing marker of object columns, RangeIndex vs Int64 index class, list vs tuple.  The out-of-service DC-grid specimens are saved and compared but removed from both nets before runpp (the power flow of this tree cannot number out-of-service DC buses).  Values outside the alphabet, geopandas frames and PostgreSQL are not covered.",
+    "note": "Trusted: mc/g_netcmp.py (the walker) and the representability predicate for xlsx / SQLite cells in mc/g_io.py.  Not demanded (statement grants it): sign of zero, None vs NaN as the missing marker of object columns, RangeIndex vs Int64 index class, list vs tuple; for Excel / SQLite also the name of an index, per-cell python types of mixed object columns, and values the cell store cannot hold (inf, |int| > 2**53 and the empty string in xlsx, list cells).  Tiny / huge floats whose only effect on runpp is to amplify the permitted 1e-14 (max_i_ka = 3e-11 kA, an angle of 1e16 degrees) are placed in columns that do not enter the power flow.  The out-of-service DC-grid specimens are saved and compared but removed from both nets before runpp (the power flow of this tree cannot number out-of-service DC buses).  Values outside the alphabet, geopandas frames and PostgreSQL are not covered.",
     "technique": "bounded exhaustive input enumeration (every 1- and 2-subset of a slot x value menu, times every format) with a structural round-trip oracle on the real I/O functions",
     "design_ref": "DESIGN.md §3 E1, §4 C20",
 }
